@@ -83,11 +83,16 @@ def replay(case):
         acc = Acc()
         check_fractional(acc, case['text'], case['values'])
         return [(f['sig'], f['what']) for f in acc.failures.values()]
+    if case.get('kind') == 'fractional-cells':
+        acc = Acc()
+        check_fractional_cells(acc, case['text'], case['axis'],
+                               case['values'])
+        return [(f['sig'], f['what']) for f in acc.failures.values()]
     return progbase.replay(case, ID, nontrivial, tolerance=0)
 
 
 def shrink(failure):
-    if failure['case'].get('kind') in ('fractional',
+    if failure['case'].get('kind') in ('fractional', 'fractional-cells',
                                        'zone-value-names-light'):
         return failure
     return progbase.shrink(failure, ID, nontrivial, tolerance=0)
@@ -127,6 +132,48 @@ def check_fractional(acc, text, values):
             return
 
 
+def check_fractional_cells(acc, text, axis, values):
+    """The same for row / column numbers: each stage colours exactly one
+    whole row (column), a neighbour of the value; one matrix per command."""
+    from verif.harness import shared_world
+    world = shared_world('c15-fractional-cells', [
+        {'label': 'M', 'group': 'G', 'location': 'L', 'kind': 'matrix',
+         'height': 16, 'width': 16}])
+    del world.trace[:]
+    result = world.run('hue 120 saturation 100 brightness 100 kelvin 2700\n'
+                       + text, budget=40000)
+    case = {'kind': 'fractional-cells', 'text': text, 'axis': axis,
+            'values': values}
+    acc.case(key=text, nontrivial=any(v != int(v) for v in values),
+             labels=['fractional-' + axis],
+             sample={'script': text} if len(acc.samples) < 3 else None)
+    if not result.compiled or result.aborted:
+        acc.fail('fractional-cells:did-not-run', '{} -> {} {}'.format(
+            text, result.errors.strip(), result.aborted), case)
+        return
+    tiles = [e[3] for e in result.trace
+             if e[0] == 'cmd' and e[2] == 'set_tile']
+    if len(tiles) != 1:
+        acc.fail('fractional-cells:requests', '{} -> {} matrix messages'
+                 .format(text, len(tiles)), case)
+        return
+    lit = [index for index, cell in enumerate(tiles[0])
+           if list(cell)[:3] != [0, 0, 0]]
+    lines = sorted({index // 16 if axis == 'row' else index % 16
+                    for index in lit})
+    whole_lines = len(lit) == 16 * len(lines)
+    wanted_ok = len(lines) == len(set(lines)) and len(lines) <= len(values) \
+        and all(any(int(v // 1) <= line <= int(-(-v // 1)) for v in values)
+                for line in lines) and all(
+                    any(int(v // 1) <= line <= int(-(-v // 1))
+                        for line in lines) for v in values)
+    if not whole_lines or not wanted_ok:
+        acc.fail('fractional-cells:cells',
+                 '{} -> {}s {} coloured ({} cells) for the values {}: not one '
+                 'whole {} next to each value'.format(
+                     text, axis, lines, len(lit), values, axis), case)
+
+
 # ---- a zone number computed by a routine that itself names a light -------------------
 def check_zone_value_names_light(acc):
     from verif.harness import World
@@ -162,4 +209,18 @@ def run_fractional():
         values = [last * k / (count - 1) for k in range(count)]
         check_fractional(acc, 'repeat {} with z from 0 to {} begin '
                          'set "Z" zone z end'.format(count, last), values)
+    for axis in ('row', 'column'):
+        for whole in range(0, 15):
+            for fraction in (0, 0.25, 0.5, 0.75):
+                value = whole + fraction
+                check_fractional_cells(
+                    acc, 'set "M" {} {}'.format(axis, value), axis, [value])
+                check_fractional_cells(
+                    acc, 'assign v {{{} / 4}} set "M" begin stage {} v end'
+                    .format(int(value * 4), axis), axis, [value])
+        for count, last in ((4, 5), (4, 10), (7, 15), (3, 1)):
+            values = [last * k / (count - 1) for k in range(count)]
+            check_fractional_cells(
+                acc, 'set "M" begin repeat {} with z from 0 to {} begin '
+                'stage {} z end end'.format(count, last, axis), axis, values)
     return acc
